@@ -361,6 +361,13 @@ pub fn run(t: &[&str]) -> String {
             }
         }
     }
+    // every kind agrees; an oracle mark (`!ptr !view !copy !id !len !lossy !freed !leak !reloff`) is a failure
+    // of the zero-copy-view oracle on the implementation itself
+    for (s, tok) in reference.iter().enumerate() {
+        if tok.contains('!') {
+            return format!("view-mismatch step={} op={} {}", s, ops[s].0, tok);
+        }
+    }
     let mut line = String::from("ok");
     for tok in reference {
         line.push(' ');
